@@ -31,6 +31,7 @@ struct Conn {
     /// in flight towards left / right (honest-honest only; the attacker decides delivery)
     to_left: VecDeque<Vec<u8>>,
     to_right: VecDeque<Vec<u8>>,
+    broken: bool,
 }
 
 #[derive(Clone, Debug)]
@@ -40,6 +41,10 @@ enum Action {
     Drop(usize, u8),
     /// inject bytes at honest endpoint (node, peer index); label for the trace
     Inject(usize, u64, Vec<u8>, String),
+    /// the attacker breaks connection ci (both honest ends see a disconnect)
+    Break(usize),
+    /// the dialling side re-establishes connection ci (a static peer keeps its index)
+    Redial(usize),
 }
 
 struct Issued {
@@ -59,6 +64,9 @@ struct Sim {
     honest_keys: Vec<PK>,
     trace: Vec<String>,
     adversarial_deliveries: u64,
+    /// PeerHandshakeComplete events collected since the last look: (node, peer index)
+    completions: Vec<(usize, u64)>,
+    next_incoming: u64,
 }
 
 fn peer_cfg(port: u16) -> PeerConfig {
@@ -76,10 +84,10 @@ impl Sim {
         let mut sim = Sim {
             nodes: vec![a, b],
             conns: vec![
-                Conn { left: (A, 10), right: Some((B, 1)), to_left: VecDeque::new(), to_right: VecDeque::new() },
-                Conn { left: (A, 11), right: None, to_left: VecDeque::new(), to_right: VecDeque::new() },
-                Conn { left: (B, 12), right: None, to_left: VecDeque::new(), to_right: VecDeque::new() },
-                Conn { left: (B, 2), right: None, to_left: VecDeque::new(), to_right: VecDeque::new() },
+                Conn { left: (A, 10), right: Some((B, 1)), to_left: VecDeque::new(), to_right: VecDeque::new(), broken: false },
+                Conn { left: (A, 11), right: None, to_left: VecDeque::new(), to_right: VecDeque::new(), broken: false },
+                Conn { left: (B, 12), right: None, to_left: VecDeque::new(), to_right: VecDeque::new(), broken: false },
+                Conn { left: (B, 2), right: None, to_left: VecDeque::new(), to_right: VecDeque::new(), broken: false },
             ],
             issued: BTreeMap::new(),
             seen_msgs: vec![],
@@ -88,6 +96,8 @@ impl Sim {
             honest_keys: vec![all[0].pk, all[1].pk],
             trace: vec![],
             adversarial_deliveries: 0,
+            completions: vec![],
+            next_incoming: 30,
         };
         for n in sim.nodes.iter_mut() {
             if n.init().await.is_err() {
@@ -123,7 +133,11 @@ impl Sim {
     fn collect(&mut self, node: usize) {
         let out = self.nodes[node].io.take_outbox();
         let _ = self.nodes[node].io.take_disconnects();
-        let _ = self.nodes[node].io.take_events();
+        for e in self.nodes[node].io.take_events() {
+            if let crate::io::IfEvent::PeerHandshakeComplete(i) = e {
+                self.completions.push((node, i));
+            }
+        }
         let _ = self.nodes[node].io.take_connects();
         for m in out {
             let (idx, bytes) = match m {
@@ -180,6 +194,7 @@ impl Sim {
             rep.count("adversarial_messages");
         }
         let witness = json!({"kind":"handshake","trace": self.trace});
+        self.completions.clear();
         let r = self.nodes[node].net(NetworkEvent::IncomingNetworkMessage { peer_index: idx, buffer: bytes }).await;
         if let Err(p) = r {
             rep.violation(
@@ -250,6 +265,36 @@ impl Sim {
                 rep.count("observation.attacker_connection_connected_under_honest_key");
             }
         }
+        // an acceptance that changes no state (the peer was Connected under that key already) still
+        // is an acceptance: every PeerHandshakeComplete needs its own unconsumed challenge
+        let transitions = after.iter().filter(|(p, (conn, key))| {
+            let was = before.get(*p).cloned().unwrap_or((false, None));
+            *conn && (!was.0 || was.1 != *key)
+        }).count();
+        let completions: Vec<(usize, u64)> = self.completions.drain(..).filter(|(n, _)| *n == node).collect();
+        rep.add("handshake_complete_events", completions.len() as u64);
+        if completions.len() > transitions {
+            for (_, p) in completions.iter().skip(transitions) {
+                let mut justified = false;
+                if let (Some(Message::HandshakeResponse(resp)), Some(list)) = (&parsed, self.issued.get_mut(&(node, *p))) {
+                    for iss in list.iter_mut() {
+                        if !iss.consumed && verify(&iss.challenge, &resp.signature, &resp.public_key) {
+                            iss.consumed = true;
+                            justified = true;
+                            break;
+                        }
+                    }
+                }
+                if !justified {
+                    rep.violation(
+                        &format!("C17|clause=handshake-accepted-without-fresh-challenge|adversarial={}", adversarial),
+                        &format!("node {} completed a handshake on peer {} (PeerHandshakeComplete) for a response that is not over an unconsumed challenge of that connection - the same response was accepted before (trace {:?})", node, p, self.trace.iter().rev().take(12).collect::<Vec<_>>()),
+                        witness.clone(),
+                    );
+                    return false;
+                }
+            }
+        }
         // a message that did not connect its own peer must not disturb the other connections
         let own_connected = after.get(&idx).map(|x| x.0).unwrap_or(false) && !before.get(&idx).map(|x| x.0).unwrap_or(false);
         for (p, st) in before.iter() {
@@ -297,7 +342,11 @@ impl Sim {
     fn actions(&self, rng: &mut Rng, breadth: usize) -> Vec<Action> {
         let mut v = vec![];
         for (ci, c) in self.conns.iter().enumerate() {
-            if c.right.is_some() {
+            // connections dialled by B (0: to A, 3: to the attacker) can be broken and redialled
+            if ci == 0 || ci == 3 {
+                v.push(if c.broken { Action::Redial(ci) } else { Action::Break(ci) });
+            }
+            if c.right.is_some() && !c.broken {
                 if !c.to_left.is_empty() {
                     v.push(Action::Deliver(ci, 0));
                     v.push(Action::Drop(ci, 0));
@@ -385,6 +434,47 @@ impl Sim {
                 true
             }
             Action::Inject(node, idx, bytes, label) => self.deliver(*node, *idx, bytes.clone(), true, label, rep).await,
+            Action::Break(ci) => {
+                use saito_core::core::io::network::PeerDisconnectType;
+                let ends: Vec<(usize, u64)> = std::iter::once(self.conns[*ci].left).chain(self.conns[*ci].right.into_iter()).collect();
+                self.trace.push(format!("break[c{}]", ci));
+                rep.count("connections_broken");
+                for (node, idx) in ends {
+                    if self.nodes[node].net(NetworkEvent::PeerDisconnected { peer_index: idx, disconnect_type: PeerDisconnectType::ExternalDisconnect }).await.is_err() {
+                        rep.violation("C17|clause=handler-panics|disconnect", "the disconnect handler panicked", json!({"kind":"handshake","trace": self.trace}));
+                        return false;
+                    }
+                    self.collect(node);
+                    // challenges issued on a connection die with it
+                    self.issued.remove(&(node, idx));
+                }
+                let c = &mut self.conns[*ci];
+                c.to_left.clear();
+                c.to_right.clear();
+                c.broken = true;
+                true
+            }
+            Action::Redial(ci) => {
+                self.trace.push(format!("redial[c{}]", ci));
+                rep.count("connections_redialled");
+                // the dialling side (B) keeps the index of its static peer; the listening side sees a new one
+                let (dial, listen) = if *ci == 0 { (self.conns[0].right.unwrap(), Some(self.conns[0].left)) } else { (self.conns[3].left, None) };
+                if let Some((ln, _)) = listen {
+                    self.next_incoming += 1;
+                    let ni = self.next_incoming;
+                    self.conns[*ci].left = (ln, ni);
+                    if self.nodes[ln].net(NetworkEvent::PeerConnectionResult { result: Ok((ni, Some("10.0.0.1".to_string()))) }).await.is_err() {
+                        return false;
+                    }
+                    self.collect(ln);
+                }
+                if self.nodes[dial.0].net(NetworkEvent::PeerConnectionResult { result: Ok((dial.1, Some("10.0.0.1".to_string()))) }).await.is_err() {
+                    return false;
+                }
+                self.conns[*ci].broken = false;
+                self.collect(dial.0);
+                true
+            }
         }
     }
 }
